@@ -20,12 +20,12 @@ type c14 struct{ base }
 
 func init() {
 	core.Register(c14{base{id: "C14", level: "exploration", quickB: 16, thoroughB: 32,
-		rule:        "tables of 1-12 columns over {bool,int2,int4,int8,float4,float8,text,varchar,bytea,uuid,oid,date,timestamp,timestamptz}, 0-50 rows, NULL density 0-100%, encoded by the harness's own binary COPY encoder (19-byte header, rows, optional trailer); the stream is cut into CopyData messages: one message, every single cut position (exhaustive for streams <= 400 bytes), 1-byte messages, random multi-cuts, cuts inside header / field count / field length / value, empty CopyData messages interleaved; rows returned by the library's row reader must equal the rows sent (value per type, NULL as nil) and end with io.EOF, identically for all splits; streams of 3L+ bytes (fields of 5-30 KB) are cut into messages of L, L-1, L-r bytes that arrive while 1-60 bytes of a row are still buffered. Every truncation point of small streams (<= 200 bytes) followed by CopyDone: clean end exactly on row boundaries, error elsewhere. Corruptions (field count +-1, 0, field length beyond the stream, length -2, stream ending mid-row, trailer mid-stream): a non-EOF error (or early EOF for the trailer), rows before it a prefix of the rows sent, no crash (child process). Non-trivial = split inside a row, trailer present, NULLs, or a corruption; distinct = (column types, rows, cut-set class, corruption).",
+		rule:        "tables of 1-12 columns over {bool,int2,int4,int8,float4,float8,text,varchar,bytea,uuid,oid,date,timestamp,timestamptz,int4[],text[]}, 0-50 rows, NULL density 0-100%, encoded by the harness's own binary COPY encoder (19-byte header, rows, optional trailer); the stream is cut into CopyData messages: one message, every single cut position (exhaustive for streams <= 400 bytes), 1-byte messages, random multi-cuts, cuts inside header / field count / field length / value, empty CopyData messages interleaved; rows returned by the library's row reader must equal the rows sent (value per type, NULL as nil) and end with io.EOF, identically for all splits; streams of 3L+ bytes (fields of 5-30 KB) are cut into messages of L, L-1, L-r bytes that arrive while 1-60 bytes of a row are still buffered. Every truncation point of small streams (<= 200 bytes) followed by CopyDone: clean end exactly on row boundaries, error elsewhere. Corruptions (a well-framed value of an impossible size for its fixed-width type, field count +-1, 0, field length beyond the stream, length -2, stream ending mid-row, trailer mid-stream): a non-EOF error (or early EOF for the trailer), rows before it a prefix of the rows sent, no crash (child process). Non-trivial = split inside a row, trailer present, NULLs, or a corruption; distinct = (column types, rows, cut-set class, corruption).",
 		need:        []string{"near_limit_messages", "streams_run", "rows_compared", "split_inside_row", "with_trailer", "single_cut_positions", "corruptions_run", "null_fields", "truncation_points"},
 		assumptions: append([]string{"header flags and extension length are zero (standard header); a field longer than the message limit L is not generated"}, commonAssumptions...)}})
 }
 
-var c14types = []uint32{pg.OIDBool, pg.OIDInt2, pg.OIDInt4, pg.OIDInt8, pg.OIDFloat4, pg.OIDFloat8, pg.OIDText, pg.OIDVarchar, pg.OIDBytea, pg.OIDUUID, pg.OIDOid, pg.OIDDate, pg.OIDTimestamp, pg.OIDTimestamptz}
+var c14types = []uint32{pg.OIDBool, pg.OIDInt2, pg.OIDInt4, pg.OIDInt8, pg.OIDFloat4, pg.OIDFloat8, pg.OIDText, pg.OIDVarchar, pg.OIDBytea, pg.OIDUUID, pg.OIDOid, pg.OIDDate, pg.OIDTimestamp, pg.OIDTimestamptz, pg.OIDInt4Array, pg.OIDTextArray}
 
 type c14table struct {
 	OIDs    []uint32
@@ -509,6 +509,45 @@ func (ch c14) corrupt(c *core.Ctx, env *hs.Env, t c14table, stream []byte, rowEn
 		{"first field length -2", mut(func(s []byte) []byte { binary.BigEndian.PutUint32(s[rowStart+2:], 0xfffffffe); return s }), "error"},
 		{"first field length beyond the stream", mut(func(s []byte) []byte { binary.BigEndian.PutUint32(s[rowStart+2:], uint32(len(s))); return s }), "error"},
 		{"first field length 2^31-1", mut(func(s []byte) []byte { binary.BigEndian.PutUint32(s[rowStart+2:], 0x7fffffff); return s }), "error"},
+	}
+	// a well-framed value whose size is impossible for its (fixed-width) column type: the framing of the
+	// row stays intact, only the value cannot be decoded
+	fixed := map[uint32]int{pg.OIDBool: 1, pg.OIDInt2: 2, pg.OIDInt4: 4, pg.OIDInt8: 8, pg.OIDFloat4: 4, pg.OIDFloat8: 8, pg.OIDUUID: 16, pg.OIDOid: 4, pg.OIDDate: 4, pg.OIDTimestamp: 8, pg.OIDTimestamptz: 8}
+	var cand []int
+	for j, v := range t.Rows[ri] {
+		if v != nil && fixed[t.OIDs[j]] > 0 {
+			cand = append(cand, j)
+		}
+	}
+	if len(cand) > 0 {
+		j := core.Pick(rng, cand)
+		w := fixed[t.OIDs[j]]
+		n := core.Pick(rng, []int{w - 1, w + 1, 0, w / 2, 2 * w, w + 3})
+		if n == w {
+			n = w + 1
+		}
+		bad := append([]byte{}, c14header...)
+		for r, row := range t.Rows {
+			bad = binary.BigEndian.AppendUint16(bad, nc)
+			for i, v := range row {
+				switch {
+				case r == ri && i == j:
+					bad = binary.BigEndian.AppendUint32(bad, uint32(n))
+					bad = append(bad, rng.Bytes(n)...)
+				case v == nil:
+					bad = append(bad, 0xff, 0xff, 0xff, 0xff)
+				default:
+					b := pg.Encode(t.OIDs[i], 1, v)
+					bad = binary.BigEndian.AppendUint32(bad, uint32(len(b)))
+					bad = append(bad, b...)
+				}
+			}
+		}
+		if t.Trailer {
+			bad = append(bad, 0xff, 0xff)
+		}
+		cases = append(cases, corr{fmt.Sprintf("value of %d bytes in a column of a %d-byte type", n, w), bad, "error"})
+		c.Count("undecodable_values", 1)
 	}
 	if nc == 1 {
 		cases = append(cases, corr{"field count 0", mut(func(s []byte) []byte { binary.BigEndian.PutUint16(s[rowStart:], 0); return s }), "error"})
